@@ -33,7 +33,9 @@ vars == <<cfg, s>>
 \* kinds of values: basic (three zero-value spellings), named basic, struct, array, pointer, slice, map, interface
 Kinds == <<"int", "str", "bool", "nint", "st", "ar", "pt", "sl", "mp", "if">>
 NK == Len(Kinds)
-KindAt(rot, p) == Kinds[((rot + p) % NK) + 1]
+\* rotation rot < 100: consecutive positions get consecutive kinds (mixed types);
+\* rot = 100 + k: every position has kind k+1 (same-typed values: only the tokens tell them apart)
+KindAt(rot, p) == IF rot >= 100 THEN Kinds[rot - 99] ELSE Kinds[((rot + p) % NK) + 1]
 \* a bool can carry only one non-zero token
 Tok(kind, t) == IF kind = "bool" THEN 1 ELSE t
 Toks(kinds, base) == [j \in DOMAIN kinds |-> Tok(kinds[j], base + j)]
@@ -52,7 +54,7 @@ ComposeCfg(n, ar, rot) ==
                                err  |-> i, canfail |-> TRUE]],
    nres |-> ar[n+1], thunk |-> FALSE]
 RotsFor(n) == CASE n = 2 -> Rots2 [] n = 3 -> Rots3 [] OTHER -> Rots4
-ComposeCfgs == UNION {{ComposeCfg(n, ar, rot) : ar \in [1..(n+1) -> 0..MaxAr], rot \in RotsFor(n)} : n \in 2..MaxN}
+ComposeCfgs(x) == UNION {{ComposeCfg(n, ar, rot) : ar \in [1..(n+1) -> 0..MaxAr], rot \in RotsFor(n)} : n \in 2..MaxN}
 
 \* ---- C16 fmap, error form: deriveFmap(f func(A) (R...), g func() (A, error)) ----
 FmapErrCfg(r, rot) ==
@@ -63,14 +65,14 @@ FmapErrCfg(r, rot) ==
    stages |-> << [res |-> <<Tok(ka, 11)>>, part |-> <<Tok(ka, 16)>>, err |-> 1, canfail |-> TRUE],
                  [res |-> Toks(kr, 20), part |-> <<>>, err |-> 0, canfail |-> FALSE] >>,
    nres |-> r, thunk |-> r >= 2]
-FmapErrCfgs == {FmapErrCfg(r, rot) : r \in 0..MaxAr, rot \in Rots}
+FmapErrCfgs(x) == {FmapErrCfg(r, rot) : r \in 0..MaxAr, rot \in Rots}
 
 \* ---- C16 join, error form: deriveJoin(f func() (T..., error), err error), also as deriveJoin(g()) ----
 JoinErrCfg(t, rot, form) ==
   LET kt == [j \in 1..t |-> KindAt(rot, j - 1)] IN
   [t |-> t, rot |-> rot, form |-> form, kinds |-> kt,
    fres |-> Toks(kt, 10), fpart |-> Toks(kt, 15), ferr |-> 1]
-JoinErrCfgs == {JoinErrCfg(t, rot, form) : t \in 0..MaxAr, rot \in Rots, form \in {"args", "tuple"}}
+JoinErrCfgs(x) == {JoinErrCfg(t, rot, form) : t \in 0..MaxAr, rot \in Rots, form \in {"args", "tuple"}}
 JoinErrEnv == {[outer |-> o, ffail |-> b] : o \in {0, 9}, b \in BOOLEAN}
 
 \* ---- C16 traverse ---------------------------------------------------------
@@ -83,21 +85,24 @@ TraverseCfg(len, nilin, rot) ==
    parts |-> [i \in 1..len |-> Tok(kb, 20 + i)],
    errs  |-> [i \in 1..len |-> i],
    input |-> [nil |-> nilin, es |-> [i \in 1..len |-> Tok(ka, i)]]]
-TraverseCfgs == {TraverseCfg(len, FALSE, rot) : len \in 0..MaxLen, rot \in Rots}
+TraverseCfgs(x) == {TraverseCfg(len, FALSE, rot) : len \in 0..MaxLen, rot \in Rots}
                 \cup {TraverseCfg(0, TRUE, rot) : rot \in Rots}
 
 \* ---- parameter naming variants (C15, ToError) ------------------------------
-\* per parameter: "n" an ordinary name, "b" the blank identifier, "f" the name the templates use
-\* for the function itself, "p" a name with the prefix the blank-renaming uses; or no names at all.
-NameVecs(n) ==
-  {v \in [1..n -> {"n", "b", "f", "p"}] :
-       /\ Cardinality({i \in 1..n : v[i] = "f"}) <= 1
-       /\ Cardinality({i \in 1..n : v[i] = "p"}) <= 1
-       /\ Cardinality({i \in 1..n : v[i] \in {"f", "p"}}) <= 1
+\* per parameter: "n" an ordinary name, "b" the blank identifier, names the templates use themselves
+\* ("f" the function, "e" = err the error, "p" a name with the prefix the blank-renaming mints);
+\* or no names at all.  At most one template name, at most two blanks per signature.
+Special == {"f", "e", "p"}
+NameVecs(n, letters) ==
+  {v \in [1..n -> letters] :
+       /\ Cardinality({i \in 1..n : v[i] \in Special}) <= 1
        /\ Cardinality({i \in 1..n : v[i] = "b"}) <= 2
-       /\ (\E i \in 1..n : v[i] = "b") => ~(\E i \in 1..n : v[i] = "f")}
-Namings(n) == IF n = 0 THEN {[style |-> "named", v |-> <<>>]}
-              ELSE {[style |-> "named", v |-> v] : v \in NameVecs(n)} \cup {[style |-> "unnamed", v |-> [i \in 1..n |-> "u"]]}
+       /\ (\E i \in 1..n : v[i] = "b") => ~(\E i \in 1..n : v[i] \in {"f", "e"})}
+Namings(n, letters) ==
+  IF n = 0 THEN {[style |-> "named", v |-> <<>>]}
+  ELSE {[style |-> "named", v |-> v] : v \in NameVecs(n, letters)} \cup {[style |-> "unnamed", v |-> [i \in 1..n |-> "u"]]}
+PlumbLetters   == {"n", "b", "f", "p"}
+ToErrorLetters == {"n", "b", "f", "p", "e"}
 
 \* ---- C16 toerror: deriveToError(err, f func(P...) (R..., bool)) ----------
 ToErrorCfg(p, r, rot, naming) ==
@@ -105,24 +110,26 @@ ToErrorCfg(p, r, rot, naming) ==
       kr == [j \in 1..r |-> KindAt(rot, p + j - 1)] IN
   [p |-> p, r |-> r, rot |-> rot, naming |-> naming, kinds |-> <<kp, kr>>,
    args |-> Toks(kp, 0), res |-> Toks(kr, 10), errtok |-> 9]
-ToErrorCfgs == UNION {{ToErrorCfg(p, r, rot, nm) : r \in 0..MaxAr, rot \in Rots, nm \in Namings(p)} : p \in 0..MaxAr}
+ToErrorCfgs(x) == UNION {{ToErrorCfg(p, r, rot, nm) : r \in 0..MaxAr, rot \in Rots, nm \in Namings(p, ToErrorLetters)} : p \in 0..MaxAr}
 
 \* ---- C15 plumb -------------------------------------------------------------
 \* uncurry: the outer function takes parameter 1, the returned function parameters 2..n;
 \* naming.v[1] names the outer parameter; "same" = the inner function reuses the outer parameter's name
 PlumbCfg(kind, n, r, rot, naming) ==
   LET kp == [j \in 1..n |-> KindAt(rot, j - 1)]
-      kr == [j \in 1..r |-> KindAt(rot, n + j - 1)] IN
+      kr == IF kind = "tuple" THEN kp ELSE [j \in 1..r |-> KindAt(rot, n + j - 1)] IN
   [kind |-> kind, n |-> n, r |-> r, rot |-> rot, naming |-> naming, kinds |-> <<kp, kr>>,
-   wargs |-> IF kind = "apply" THEN <<Tok(kp[n], n)>> \o [j \in 1..(n-1) |-> Tok(kp[j], j)]
-             ELSE Toks(kp, 0),
+   \* the j-th value the test supplies has the kind of the parameter it must end up in
+   wargs |-> CASE kind = "apply" -> <<Tok(kp[n], n)>> \o [j \in 1..(n-1) |-> Tok(kp[j], j)]
+               [] kind = "flip"  -> <<Tok(kp[2], 1), Tok(kp[1], 2)>> \o [j \in 1..(n-2) |-> Tok(kp[j+2], j+2)]
+               [] OTHER          -> Toks(kp, 0),
    fres |-> Toks(kr, 10)]
 PlumbMinParams(kind) == IF kind \in {"apply", "tuple"} THEN 1 ELSE 2
-PlumbCfgs ==
+PlumbCfgs(x) ==
   UNION {UNION {{PlumbCfg(kind, n, r, rot, nm) :
              r \in (IF kind = "tuple" THEN {n} ELSE 0..MaxAr), rot \in Rots,
-             nm \in (IF kind = "tuple" THEN {[style |-> "named", v |-> [i \in 1..n |-> "n"]]} ELSE Namings(n))}
-         : kind \in PlumbKinds} : n \in 1..MaxParams}
+             nm \in (IF kind = "tuple" THEN {[style |-> "named", v |-> [i \in 1..n |-> "n"]]} ELSE Namings(n, PlumbLetters))}
+         : n \in PlumbMinParams(kind)..MaxParams} : kind \in PlumbKinds}
 PlumbOK(c) == c.n >= PlumbMinParams(c.kind)
 
 \* ---- C17 fmap over slices and strings ---------------------------------------
@@ -132,14 +139,14 @@ FmapCfg(len, nilin, rot) ==
       es == [i \in 1..len |-> Tok(ka, i)] IN
   [src |-> "slice", len |-> len, rot |-> rot, kinds |-> <<ka, kb>>,
    elems |-> es, outs |-> [i \in 1..len |-> Tok(kb, 10 + i)], input |-> [nil |-> nilin, es |-> es]]
-FmapCfgs == {FmapCfg(len, FALSE, rot) : len \in 0..MaxLen, rot \in Rots} \cup {FmapCfg(0, TRUE, rot) : rot \in Rots}
+FmapCfgs(x) == {FmapCfg(len, FALSE, rot) : len \in 0..MaxLen, rot \in Rots} \cup {FmapCfg(0, TRUE, rot) : rot \in Rots}
 
-GroupSeqs == UNION {[1..n -> Groups] : n \in 0..MaxLen}
+GroupSeqs(x) == UNION {[1..n -> Groups] : n \in 0..MaxLen}
 FmapStrCfg(gs, rot) ==
   LET kb == KindAt(rot, 0) IN
   [src |-> "string", groups |-> gs, rot |-> rot, kinds |-> <<"rune", kb>>,
    elems |-> RunesOf(gs), outs |-> [i \in DOMAIN gs |-> Tok(kb, 10 + i)], input |-> BytesOf(gs)]
-FmapStrCfgs == {FmapStrCfg(gs, rot) : gs \in {g \in GroupSeqs : WellGrouped(g)}, rot \in Rots}
+FmapStrCfgs(x) == {FmapStrCfg(gs, rot) : gs \in {g \in GroupSeqs(0) : WellGrouped(g)}, rot \in Rots}
 
 \* ---- C17 join of slices and of strings ---------------------------------------
 \* an inner list: nil, empty, or 1..2 elements, optionally with spare capacity holding a sentinel
@@ -153,17 +160,17 @@ JoinCfg(shapes, nilin, rot) ==
                         [nil |-> shapes[i].nil,
                          es |-> [j \in 1..shapes[i].n |-> Tok(k, 10 * i + j)],
                          spare |-> [j \in 1..shapes[i].spare |-> Tok(k, 10 * i + 5 + j)]]]]]
-JoinCfgs == {JoinCfg(sh, FALSE, rot) : sh \in UNION {[1..n -> InnerShapes] : n \in 0..MaxOuter}, rot \in Rots}
+JoinCfgs(x) == {JoinCfg(sh, FALSE, rot) : sh \in UNION {[1..n -> InnerShapes] : n \in 0..MaxOuter}, rot \in Rots}
             \cup {JoinCfg(<<>>, TRUE, rot) : rot \in Rots}
 
 StrChoices == {<<>>, <<"a">>, <<"e2", "a">>, <<"xff">>, <<"e4">>}
 JoinStrCfg(strs, nilin) ==
   [str |-> TRUE, groups |-> strs, input |-> [nil |-> nilin, ls |-> [i \in DOMAIN strs |-> BytesOf(strs[i])]]]
-JoinStrCfgs == {JoinStrCfg(ss, FALSE) : ss \in UNION {[1..n -> StrChoices] : n \in 0..MaxOuter}} \cup {JoinStrCfg(<<>>, TRUE)}
+JoinStrCfgs(x) == {JoinStrCfg(ss, FALSE) : ss \in UNION {[1..n -> StrChoices] : n \in 0..MaxOuter}} \cup {JoinStrCfg(<<>>, TRUE)}
 
 \* ---- C18 mem ------------------------------------------------------------------
-\* parameter kinds: ==-comparable (int, str, st, ar) and not (pt, sl, mp); result kinds: all
-MemKinds == <<"int", "sl", "str", "pt", "st", "mp", "ar">>
+\* parameter kinds: ==-comparable (int, str, st, ar) and not (pt, ssl = []string, mp); result kinds: all
+MemKinds == <<"int", "ssl", "str", "pt", "st", "mp", "ar">>
 MemKindAt(rot, p) == MemKinds[((rot + p) % Len(MemKinds)) + 1]
 Classes(p) == IF p = 0 THEN {1} ELSE {1, 2, 3}
 \* class c as a tuple of per-parameter tokens: the classes differ in one position only
@@ -176,24 +183,25 @@ MemCfg(p, r, rot) ==
   [p |-> p, r |-> r, rot |-> rot, kinds |-> <<kp, kr>>,
    A |-> [c \in Classes(p) |-> ClassArgs(p, c)],
    F |-> [c \in Classes(p) |-> Toks(kr, 10 * c)]]
-MemCfgs == {MemCfg(p, r, rot) : p \in 0..MaxAr, r \in 0..MaxAr, rot \in MemRots}
+MemCfgs(x) == {MemCfg(p, r, rot) : p \in 0..MaxAr, r \in 0..MaxAr, rot \in MemRots}
 MemFreeEnv(c, st) ==
   IF Len(st.script) >= MaxSeq THEN {}
   ELSE {[c |-> cl, rep |-> rp] : cl \in DOMAIN c.A, rp \in (IF c.p = 0 THEN {1} ELSE {1, 2})}
 
 -----------------------------------------------------------------------------
+\* (the per-family sets take a dummy parameter so that TLC does not pre-compute all of them)
 Configs ==
-  CASE Fam = "compose"  -> ComposeCfgs
-    [] Fam = "fmaperr"  -> FmapErrCfgs
-    [] Fam = "joinerr"  -> JoinErrCfgs
-    [] Fam = "traverse" -> TraverseCfgs
-    [] Fam = "toerror"  -> ToErrorCfgs
-    [] Fam = "plumb"    -> {c \in PlumbCfgs : PlumbOK(c)}
-    [] Fam = "fmap"     -> FmapCfgs
-    [] Fam = "fmapstr"  -> FmapStrCfgs
-    [] Fam = "join"     -> JoinCfgs
-    [] Fam = "joinstr"  -> JoinStrCfgs
-    [] Fam = "mem"      -> MemCfgs
+  CASE Fam = "compose"  -> ComposeCfgs(0)
+    [] Fam = "fmaperr"  -> FmapErrCfgs(0)
+    [] Fam = "joinerr"  -> JoinErrCfgs(0)
+    [] Fam = "traverse" -> TraverseCfgs(0)
+    [] Fam = "toerror"  -> ToErrorCfgs(0)
+    [] Fam = "plumb"    -> {c \in PlumbCfgs(0) : PlumbOK(c)}
+    [] Fam = "fmap"     -> FmapCfgs(0)
+    [] Fam = "fmapstr"  -> FmapStrCfgs(0)
+    [] Fam = "join"     -> JoinCfgs(0)
+    [] Fam = "joinstr"  -> JoinStrCfgs(0)
+    [] Fam = "mem"      -> MemCfgs(0)
 
 \* the free environment: everything the environment may choose
 FreeEnv(c, st) ==
